@@ -41,13 +41,65 @@ def const_values(e, depth=0):
     return None
 
 
+def _strip_casts_e(e):
+    p = peel(e, through_try=False)
+    while p is not None and p.k == "cast" and p.a is not None:
+        p = peel(p.a, through_try=False)
+    return p
+
+
+def munmap_wrappers(facts):
+    """{function q: (index of the address parameter, index of the length parameter)} for local functions that are
+    munmap(addr, len) on two of their own parameters (error handling around it allowed)"""
+    out = {}
+    for b in facts.bodies:
+        if b.kind == "closure" or b.self_adt == MAP_ADT:
+            continue
+        calls = [(bb, t) for bb, t in b.calls_to(MUNMAP)]
+        if len(calls) != 1:
+            continue
+        t = calls[0][1]
+        a0, a1 = _strip_casts_e(b.operand_expr(t["args"][0])), _strip_casts_e(b.operand_expr(t["args"][1]))
+        if a0 is not None and a1 is not None and a0.k == "param" and a1.k == "param":
+            out[b.q] = (a0.idx, a1.idx)
+    return out
+
+
+def unmap_calls(facts, body):
+    """[(bb, address expression, length expression)] for munmap calls of this body, direct or through a wrapper"""
+    out = []
+    for bb, t in body.calls_to(MUNMAP):
+        out.append((bb, body.operand_expr(t["args"][0]), body.operand_expr(t["args"][1])))
+    wr = munmap_wrappers(facts)
+    if wr:
+        for bb, t in body.calls():
+            for q in Body.callee_qs(t):
+                if q in wr:
+                    ai, li = wr[q]
+                    if ai - 1 < len(t["args"]) and li - 1 < len(t["args"]):
+                        out.append((bb, body.operand_expr(t["args"][ai - 1]), body.operand_expr(t["args"][li - 1])))
+    return out
+
+
 def rule_r1(facts, col):
     """who may call mmap/munmap"""
+    wr = munmap_wrappers(facts)
+    for q in wr:
+        # a wrapper is as good as its callers: all of them inside Map
+        for cb, cbb, ct in facts.callers_of(q):
+            owner = cb.self_adt if cb.kind != "closure" else (cb.parent or {}).get("self_adt")
+            key = "%s:%s" % (cb.q, q.split("::")[-1])
+            if owner == MAP_ADT:
+                col.ok("C18.R1", key, cb.where(cbb), "munmap wrapper called inside Map")
+            else:
+                col.bad("C18.R1", key, cb.where(cbb), "the munmap wrapper %s is called outside circular_buffer::Map" % q, {})
     n = 0
     for body, bb, t in facts.callers_of({MMAP, MUNMAP}):
         n += 1
         key = "%s:%s" % (body.q, t["f"]["name"])
         owner = body.self_adt if body.kind != "closure" else (body.parent or {}).get("self_adt")
+        if body.q in wr and t["f"].get("q") == MUNMAP:
+            continue      # judged at the wrapper's call sites above
         if owner == MAP_ADT:
             col.ok("C18.R1", key, body.where(bb), "inside Map")
         else:
@@ -94,9 +146,9 @@ def rule_r2(facts, col):
                         col.bad("C18.R2", key + ":agg", body.where(b2),
                                 "Map is built from something other than (the pointer mmap returned, the length that was mapped)", {})
         unmaps = set()
-        for b2, t2 in body.calls_to(MUNMAP):
-            a0 = peel(body.operand_expr(t2["args"][0]), through_try=False)
-            if a0.k == "call" and a0.bb == bb and same_expr(body.operand_expr(t2["args"][1]), len_arg):
+        for b2, ae, le in unmap_calls(facts, body):
+            a0 = _strip_casts_e(ae)
+            if a0 is not None and a0.k == "call" and a0.bb == bb and (same_expr(le, len_arg) or same_expr(_strip_casts_e(le), _strip_casts_e(len_arg))):
                 unmaps.add(b2)
         r = body.reachable(bb, avoid=own | unmaps, edge_filter=lambda a, b: (a, b) != failed_edge)
         leaks = [x for x in r if body.term(x)["k"] == "return"]
@@ -122,7 +174,7 @@ def rule_r3(facts, col):
         return
     for body in drops:
         key = body.q
-        um = [(bb, t) for bb, t in body.calls_to(MUNMAP)]
+        um = [(bb, (ae, le)) for bb, ae, le in unmap_calls(facts, body)]
         if not um:
             col.bad("C18.R3", key, body.where(), "Drop for Map does not call munmap", {})
             continue
@@ -131,9 +183,9 @@ def rule_r3(facts, col):
             col.bad("C18.R3", key, body.where(), "Drop for Map can return without munmap", {})
             continue
         bad = []
-        for bb, t in um:
-            a0 = peel(body.operand_expr(t["args"][0]), through_try=False)
-            a1 = peel(body.operand_expr(t["args"][1]), through_try=False)
+        for bb, (ae, le) in um:
+            a0 = _strip_casts_e(ae)
+            a1 = _strip_casts_e(le)
             okb = a0.k == "field" and a0.name == "base" and peel(a0.a).k == "param"
             okl = a1.k == "field" and a1.name == "len" and peel(a1.a).k == "param"
             if not (okb and okl):
@@ -187,7 +239,7 @@ def rule_r4(facts, col):
         half = body.operand_expr(ft["args"][1])
         full = body.operand_expr(first[0][1]["args"][1])
         # the fixed address is base + half
-        addr = peel(body.operand_expr(ft["args"][2]), through_try=False)
+        addr = peel(expand_local_call(facts, body.operand_expr(ft["args"][2])), through_try=False)
         okaddr = False
         for x in walk(addr):
             if x.k == "bin" and x.op == "Add":
@@ -307,7 +359,7 @@ def rule_r8(facts, col):
                 ln = _strip_casts(body.operand_expr(t["args"][1]))
                 if not (ln.k == "param" and ln.idx == 1):
                     probs.append("the second mapping's length is %s, not the size parameter" % show(ln)[:50])
-                ptr = body.operand_expr(t["args"][2])
+                ptr = expand_local_call(facts, body.operand_expr(t["args"][2]))
                 okp = False
                 for x in walk(ptr):
                     if x.k == "bin" and x.op in ("Add", "AddUnchecked", "Offset"):
@@ -340,14 +392,35 @@ def rule_r8(facts, col):
                 if st["k"] == "assign" and st["rv"]["k"] == "agg" and st["rv"].get("adt") == c01.STATE_ADT:
                     agg = (b2, st)
         calls = [(bb, t) for bb, t in body.calls() if (t["f"].get("q") or "").endswith("Circ::new")]
-        if not agg or not calls:
+        if not calls:
             continue
-        flds = agg[1]["rv"].get("fields") or []
         key = body.q + ":same-size"
-        if "circ_len" not in flds:
-            col.silent("C18.R8", key, body.where(agg[0]), "no circ_len field")
-            continue
-        cl = _strip_casts(body.operand_expr(agg[1]["rv"]["ops"][flds.index("circ_len")]))
+        cl = None
+        if agg:
+            flds = agg[1]["rv"].get("fields") or []
+            if "circ_len" not in flds:
+                col.silent("C18.R8", key, body.where(agg[0]), "no circ_len field")
+                continue
+            cl = _strip_casts(body.operand_expr(agg[1]["rv"]["ops"][flds.index("circ_len")]))
+        else:
+            # the ring state may be built by a constructor function (`BufferState::new(size, ..)`): take the argument that
+            # ends up in circ_len
+            for bb, t in body.calls():
+                for q in Body.callee_qs(t):
+                    for hb in facts.by_q.get(q, []):
+                        if hb.kind == "closure" or hb is body:
+                            continue
+                        for b2 in sorted(hb.reachable(0)):
+                            for st in hb.blocks[b2]["stmts"]:
+                                if st["k"] == "assign" and st["rv"]["k"] == "agg" and st["rv"].get("adt") == c01.STATE_ADT:
+                                    fl2 = st["rv"].get("fields") or []
+                                    if "circ_len" in fl2:
+                                        pe = _strip_casts(hb.operand_expr(st["rv"]["ops"][fl2.index("circ_len")]))
+                                        if pe.k == "param" and pe.idx - 1 < len(t["args"]):
+                                            cl = _strip_casts(body.operand_expr(t["args"][pe.idx - 1]))
+                                            agg = (bb, None)
+            if cl is None:
+                continue
         ca = _strip_casts(body.operand_expr(calls[0][1]["args"][0]))
         if cl.k == "call" or ca.k == "call":
             col.silent("C18.R8", key, body.where(agg[0]), "size obtained through a call: not compared")
